@@ -29,6 +29,9 @@ class CloseErr(Exception):
 
 FALSY_ANY = [None, 0, "", (), [], {}, 0.0, False]
 FALSY_KEYS = [None, 0, "", ()]                      # hashable and pairwise non-equal
+# results of a user PREDICATE that are not bools: the predicate's truth value decides (dict.get, re.match, x % n ...)
+FALSY_RESULTS = [0, None, "", (), [], {}, 0.0]
+TRUTHY_RESULTS = [1, "0", (None,), [0], {"": None}, -0.5, 2, object()]
 RAISE = 90
 DNEVER = 99
 SUB = 200                                            # subscription instant (model tick 0)
@@ -357,7 +360,10 @@ def run_window(scn: Dict[str, Any], var: Dict[str, Any], horizon: int) -> Dict[s
     def subscriber(sink):
         return lambda: zs.subscribe(on_next=sink.on_value if buf else sink.on_inner, on_error=sink.on_error,
                                     on_completed=sink.on_completed, scheduler=env.s)
-    escaped = _drive(env, horizon, [subscriber(k) for k in sinks], sinks, _dispose_tick(scn, horizon))
+    # dmode "outer" (window mode only: a buffer_* result has no separate window subscriptions): only the subscription
+    # to the sequence of windows is disposed, the window subscriptions are kept
+    escaped = _drive(env, horizon, [subscriber(k) for k in sinks], sinks, _dispose_tick(scn, horizon),
+                     scn.get("dmode") == "outer" and not buf)
     return {"obs": [{"wins": k.inner, "outer": k.outer} for k in sinks], "escaped": escaped, "vals": vals, "errs": errs,
             "name": name, "src_subs": _src_intervals(env, xs), "nsubs": len(sinks)}
 
@@ -623,18 +629,28 @@ def run_group(scn: Dict[str, Any], var: Dict[str, Any], horizon: int, nvals: int
     dsp = _dispose_tick(scn, horizon)
     if op in ("partition", "partition_indexed"):
         p = par["p"]
+        pcalls = [0]
+
+        def verdict(truth):
+            """the predicate's result for the table's verdict: a bool, or (result profile 'obj') a truthy / falsy
+            value that is NOT a bool, a different one at every call"""
+            if var.get("pres", "bool") != "obj":
+                return truth
+            pcalls[0] += 1
+            pool = TRUTHY_RESULTS if truth else FALSY_RESULTS
+            return pool[(salt + pcalls[0]) % len(pool)]
 
         def pred(x):
             r = tab(p, x)
             if r == 2:
                 raise FnErr("predicate")
-            return r == 1
+            return verdict(r == 1)
 
         def pred_i(x, i):
             r = tab(p, x)
             if r == 2:
                 raise FnErr("predicate")
-            return (r + i) % 2 == 1
+            return verdict((r + i) % 2 == 1)
         fn = pred if op == "partition" else pred_i
         if var.get("form", "pipe") == "fluent":
             outs = getattr(xs, op)(fn)
@@ -741,7 +757,7 @@ def judge_group(scn, allowed, var, horizon, nvals, nkeys):
 # shared driver
 # =================================================================================================
 WINDOW_INVS = ["WinGrammar", "DeliveredOK", "TermOK", "RefCount", "RefTime", "Partition", "RefToc", "RefBound",
-               "RefWhen", "RefToggle", "BufOK", "SilentOK"]
+               "RefWhen", "RefToggle", "BufOK", "SilentOK", "HeldOK"]
 GROUP_INVS = ["GrpGrammar", "RouteOK", "NewGroupOK", "ExpiryOK", "TermOK", "SilentOK"]
 
 
@@ -812,7 +828,9 @@ def sample_window_scns(rng, fam: str, c: Dict[str, Any], n: int) -> List[Dict[st
         else:
             par = {"durs": [pick("Durs") for _ in aux], "ck": pick("CKinds"), "fr": fr(len(aux))}
         dsp = rng.randint(0, c["MaxT"]) if c.get("Disposes") and rng.random() < 0.5 else inf
-        out.append({"op": fam, "par": par, "src": src, "term": term, "aux": aux, "auxterm": auxterm, "dsp": dsp})
+        dmode = "outer" if (dsp != inf and fam in c.get("OuterOps", ()) and rng.random() < 0.5) else "all"
+        out.append({"op": fam, "par": par, "src": src, "term": term, "aux": aux, "auxterm": auxterm, "dsp": dsp,
+                    "dmode": dmode})
     return out
 
 
